@@ -140,7 +140,7 @@ def als_func(X_trn, y_trn, A0, a=-1., b=+1., nswp=50, e=1.E-16, info={}, *,
                     Y[k][:, n[k]:, :] = 0
 
                 n[k] = n_k =_optimize_core(Y[k][:, :n_k, :], y_trn,
-                    Yl[k], Yr[k], H[k][:, :n_k], n_max_cur, thr_pow, lamb=lamb, update_sol=update_sol)
+                    Yl[k], Yr[k], H[k][:, :n_k], n_max, thr_pow, lamb=lamb, update_sol=update_sol)
                 Hk = H[k][:, :n_k]
 
                 if lr == 1:
